@@ -296,6 +296,53 @@ fn api_unit() -> Unit {
     explore_unit("input/api-echo", "names accepted by the parser are created through the API, the echoed name must be the given one and must resolve", Bounds::new(0), ExecCfg { points_on: false, ..Default::default() }, f)
 }
 
+/// Names that differ only in the project denote different resources - through every RPC, including follow-up
+/// requests on an open stream.
+fn two_projects_unit() -> Unit {
+    let f: ScenFn = scen!(|cx| {
+        let a = cx.api.clone();
+        let (t1, t2) = ("projects/one/topics/shared", "projects/two/topics/shared");
+        let (s1, s2) = ("projects/one/subscriptions/shared", "projects/two/subscriptions/shared");
+        for (t, s) in [(t1, s1), (t2, s2)] {
+            let r = tryv!(cx.settle("setup:create", { let a = a.clone(); async move { a.create_topic(t).await?; a.create_sub(s, t, 10, None).await.map(|_| ()) } }).await);
+            if r.is_err() { return ScenarioOut::viol("setup/create", format!("{:?}", r)); }
+        }
+        let r = tryv!(cx.settle("setup:publish", { let a = a.clone(); async move { a.publish(t1, vec![(b"one".to_vec(), vec![])]).await } }).await);
+        if r.is_err() { return ScenarioOut::viol("setup/publish", format!("{:?}", r)); }
+        let held = tryv!(cx.settle("setup:pull", { let a = a.clone(); async move { a.pull(s1, 1, true).await } }).await).unwrap_or_default();
+        if held.len() != 1 { return ScenarioOut::viol("setup/pull", "no message".to_string()); }
+        let id = held[0].ack_id.clone();
+        let via = cx.choose("via", 5);
+        let id2 = id.clone();
+        let what = tryv!(cx.settle_opt("client:other-project", { let a = a.clone(); async move {
+            match via {
+                0 => res(&a.ack(s2, vec![id2]).await),
+                1 => res(&a.modify(s2, vec![id2], 0).await),
+                2 => res(&a.pull(s2, 10, true).await.map(|v| assert!(v.is_empty(), "message of project one pulled through project two"))),
+                3 => res(&a.delete_sub(s2).await),
+                _ => {
+                    // follow-up on project one's stream that names project two's subscription and acks
+                    let (tx, r) = a.streaming_pull(first_stream_req(s1, 10)).await;
+                    let _ = tx.send(deltio::pubsub_proto::StreamingPullRequest { subscription: s2.into(), ack_ids: vec![id2], ..Default::default() }).await;
+                    drop(tx);
+                    match r { Err(c) => format!("{:?}", c), Ok(mut st) => loop { match st.message().await { Ok(Some(_)) => {}, Ok(None) => break "OK".to_string(), Err(e) => break format!("{:?}", e.code()) } } }
+                }
+            }
+        } }).await).unwrap_or_else(|| "OPEN".into());
+        // project one's delivery must be untouched: still outstanding, still acknowledgeable under its own name
+        let st = tryv!(cx.stats(s1).await);
+        match st {
+            Some(s) if s.outstanding + s.backlog == 1 => {}
+            other => return ScenarioOut::viol("api/names-differing-in-project-alias", format!("an operation through {} (via {}) returned {} and changed {}: {:?}", s2, via, what, s1, other)),
+        }
+        if via == 4 && what != "InvalidArgument" {
+            return ScenarioOut::viol("api/stream-follow-up-names-other-subscription", format!("a follow-up request naming {} on a stream opened for {} was answered with {}", s2, s1, what));
+        }
+        ScenarioOut { sample: Some(format!("via {} -> {}", via, what)), ..ScenarioOut::ok(format!("via{}:{}", via, what)) }
+    });
+    explore_unit("input/api-two-projects", "two projects with a topic and a subscription of the same id: ack / nack / pull / delete / stream follow-up through the other project's name never touch this project's resource", Bounds::new(0), ExecCfg { points_on: false, ..Default::default() }, f)
+}
+
 pub fn units(thorough: bool) -> Vec<Unit> {
     vec![
         Unit::enumerate(
@@ -304,5 +351,6 @@ pub fn units(thorough: bool) -> Vec<Unit> {
             enumerate(thorough),
         ),
         api_unit(),
+        two_projects_unit(),
     ]
 }
